@@ -40,13 +40,18 @@ impl EdgeLocate for OpenEdge {
         &self,
         _section: &Curve2,
         stations: Vec<InscribedCircle>,
-        _front: bool,
+        front: bool,
         _af_tol: f64,
     ) -> Result<(Option<AirfoilEdge>, Vec<InscribedCircle>)> {
-        Ok((
-            Some(AirfoilEdge::open(stations.last().unwrap().circle.center)),
-            stations,
-        ))
+        // The open edge is at the end of the camber line being worked on: the first station for
+        // the leading edge, the last one for the trailing edge
+        let end = if front {
+            stations.first()
+        } else {
+            stations.last()
+        };
+        let center = end.ok_or("No stations to locate an open edge")?.circle.center;
+        Ok((Some(AirfoilEdge::open(center)), stations))
     }
 }
 
